@@ -1115,6 +1115,18 @@ def stream_gemini_args(chk, i, rng):
                 else:
                     chk.dist[f"repr-rejected:{label}.{what}:{rep}:{type(exc).__name__}"] += 1
                 continue
+            if exc is None and b_exc is None and rep not in ("float32", "residue") and isinstance(g, G.MMDGEMINI) and what in ("call", "call_grad", "evaluate"):
+                # the MMD is sqrt(max(q, 0)) of a quadratic form that cancels to rounding level when the clusters coincide
+                # (K = 1): BLAS sums in another order for another memory layout, so the score may differ by the square root
+                # of that residue, and the gradient (residue / 0-guarded) is then not comparable
+                allow = 4 * np.sqrt(2.2e-16 * max(1.0, float(np.max(np.abs(aff)))))
+                sc = lambda o: float(o[0]) if isinstance(o, tuple) else float(o)
+                same = abs(sc(out) - sc(b_out)) <= allow + 1e-9 * (1 + abs(sc(b_out)))
+                if same and isinstance(out, tuple) and K >= 2 and abs(sc(b_out)) > allow:
+                    same = approx_same(out[1], b_out[1])
+                if not same:
+                    chk.fail(f"gemini:{what}:representation-changes-result", f"{label}.{what} gives another value when the same numbers arrive as {rep}", rp, layer="L3")
+                continue
             if exc is None and b_exc is None and rep not in ("float32", "residue") and not approx_same(out, b_out):
                 chk.fail(f"gemini:{what}:representation-changes-result", f"{label}.{what} gives another value when the same numbers arrive as {rep}", rp, layer="L3")
     chk.count(("gemini-args", label, n, K))
